@@ -207,6 +207,10 @@ func checkC02(c *Ctx) {
 		os := tr.trace(content, 0, map[ssa.Value]bool{})
 		cons := "deliver-content@" + shortFn(site.Parent())
 		if ok, off := onlyKinds(os, "source"); ok {
+			if why := c.c06ReadBound(m); why != "" {
+				r.Bad("C02/IN/dot-decode", cons, p.InstrPos(site), "%s (a bounded read is only loss-free together with the over-limit rejection)", why)
+				continue
+			}
 			detail := "content = " + originsStr(os)
 			if len(tr.gated) > 0 {
 				detail += "; io.LimitReader at " + strings.Join(tr.gated, ",") + " is paired with the over-limit rejection decided by C06/SIZE/data"
